@@ -40,7 +40,8 @@ def mk(rng, table, mode, px, k):
             "shuffle_seed": k, "meta_given": mi < len(METAS), "meta": canon_json(METAS[mi] if mi < len(METAS) else {}),
             "assembly_given": k % 3 != 0, "assembly": ASSEMBLIES[k % len(ASSEMBLIES)] if k % 3 != 0 else "unknown",
             "h5": k % len(coll_drivers.H5OPTS), "dt": dts[k % len(dts)],
-            "open": ["path", "uri", "handle"][k % 3], "group": "/" if k % 5 else "/sub/grp"}
+            "open": ["path", "uri", "handle"][k % 3], "group": "/" if k % 5 else "/sub/grp",
+            "scale": 4 if k % 7 == 3 else 1}           # float64 value columns holding multiples of 0.25
     return "cr.roundtrip", case
 
 
